@@ -874,6 +874,39 @@ impl WorldD {
         let ics_faulted = evs.iter().any(|e| {
             matches!(e, Event::Frame(f) if f.addr == self.ics && matches!(f.outcome, crate::chain::Outcome::Abort | crate::chain::Outcome::FaultEarly | crate::chain::Outcome::FaultLate(_)))
         });
+        // the handler itself refused a genuine acknowledgement / timeout of a send whose token is (still) allowed:
+        // the relayer can never settle it
+        let handler_err = evs.iter().any(|e| matches!(e, Event::Frame(f) if f.addr == self.ics && f.entry == Entry::Sudo && matches!(f.outcome, crate::chain::Outcome::Err)));
+        if handler_err && !injected_on_ics && !ics_faulted && fault.is_none() && !self.cfg.malicious {
+            // (a malicious counterparty can redeem vouchers of a send and then fail the same send; the handler is
+            // right to refuse then — with an honest remote the books always cover an in-flight send)
+            let pkt = self.packets.iter().find(|p| p_desc(&p.desc) == pk).cloned();
+            let denom = pkt.as_ref().map(|p| p.denom.clone()).unwrap_or_default();
+            let covered = match (&pkt, &self.obs) {
+                (Some(p), Some(o)) => Self::outstanding(o, &p.channel, &p.denom) >= p.amount,
+                _ => false,
+            };
+            if !covered {
+                return;
+            }
+            let payable = match denom.strip_prefix("cw20:") {
+                None => true,
+                Some(tok) => self
+                    .obs
+                    .as_ref()
+                    .map(|o| o.snap.default_gas_limit.is_some() || o.snap.allowed.iter().any(|a| a.0 == tok))
+                    .unwrap_or(false),
+            };
+            if payable {
+                self.viol(
+                    out,
+                    "C12",
+                    "settlement-refused",
+                    json!({"event": what}),
+                    format!("the {} of {} ({}) was refused by the handler although the token is allowed and nothing was injected: the send stays outstanding", what, pk, denom),
+                );
+            }
+        }
         if handler_ok && !injected_on_ics && !ics_faulted {
             self.viol(
                 out,
